@@ -197,3 +197,27 @@ CHECKS["C10"] = {
     "explanation": "letters symbolic over {a,c,g,t,n} x case, symbolic word w, symbolic sub-range; the finger/pos tables are written through symbolic indices; specification computed on the letter string",
     "outside": "index tables for k >= 4 (65k-gate ite/adder networks per query: the build/positions harness runs at k = 2,3 through the exported MinKmerLen; k = 4 is covered for iteration and k = 4..10 for the bit identities), sequences longer than stated, the map-returning conveniences (KmerFrequencies, KmerIndex, StringKmerIndex), GCof as a float of a symbolic count (checked on its integer count; the float division only for k<=3 by case split)",
 }
+
+
+def c06_jobs(tier):
+    jobs = []
+    P = "seq/sequtils"
+    for qual in (0, 1):
+        for n in ((0, 2) if tier == "quick" else (0, 1, 2, 3, 4, 5)):
+            jobs.append({"pkgdir": P, "func": "VerifC06_Truncate", "params": {"n": n, "qual": qual}})
+    for (n, m) in ([(2, 2), (0, 2), (3, 1)] if tier == "quick" else [(2, 2), (0, 2), (3, 1), (4, 3), (2, 0)]):
+        jobs.append({"pkgdir": P, "func": "VerifC06_Join", "params": {"n": n, "m": m}})
+    for qual in (0, 1):
+        for (n, k) in ([(2, 2)] if tier == "quick" else [(2, 2), (3, 2), (4, 2), (2, 3)]):
+            jobs.append({"pkgdir": P, "func": "VerifC06_Stitch", "params": {"n": n, "k": k, "qual": qual}})
+            if tier == "thorough" or qual == 0:
+                jobs.append({"pkgdir": P, "func": "VerifC06_Compose", "params": {"n": n, "k": k, "qual": qual}})
+    return jobs
+
+
+CHECKS["C06"] = {
+    "jobs": c06_jobs,
+    "functions": ["sequtils.{Truncate,Join,Stitch,Compose}", "alphabet.Letters/QLetters slice methods", "linear.(*Seq)/(*QSeq)", "sort.Sort (executed)"],
+    "explanation": "symbolic letters/qualities; offsets, ranges and feature geometry case-split by the engine (they determine result shapes) over a window that includes positions before, inside and after the sequence; positional specifications written from the statement; destination/source independence probed by a Set on the result",
+    "outside": "Trim (floating-point sums of symbolic error probabilities: not decidable with this engine, not claimed), sequences longer than stated, more than 3 features",
+}
